@@ -42,6 +42,9 @@ macro_rules! config {
         const RAWPARTS: bool = true;
         fn raw_ops(w: &mut World<Self>, a: &Value, out: &mut ActOut) -> bool { raw_ops_impl::<Self>(w, a, out) }
     };
+    (@cap tracked, $e:ty) => {
+        const BUILDER_TRACKED: bool = true;
+    };
     (@cap cloneable, $e:ty) => {
         const CLONEABLE: bool = true;
         fn clone_vec(v: &V<Self>) -> Option<V<Self>> { Some(v.clone()) }
@@ -110,6 +113,7 @@ config!(CFence24d, "fence24d", dyn Cloneable, fence::FenceMemBuilder, fence::Fen
 config!(CFence160, "fence160", dyn TNone, fence::FenceMemBuilder, fence::FenceMemBuilderK::<1>, E160a32d, false, 0, "fence", resizable);
 config!(CFenceOver8d, "fenceover8d", dyn TNone, fence::FenceMemBuilderK<4>, fence::FenceMemBuilderK::<4>, E8a8d, false, 0, "fence", resizable);
 config!(CFenceOver3c, "fenceover3c", dyn Cloneable, fence::FenceMemBuilderK<8>, fence::FenceMemBuilderK::<8>, E3a1n, false, 0, "fence", resizable, cloneable);
+config!(CFenceRaw8c, "fenceraw8c", dyn Cloneable, fence::FenceRawBuilder, fence::FenceRawBuilder::new(), E8a8d, false, 0, "fence", resizable, rawparts, cloneable, tracked);
 config!(CFence0d, "fence0d", dyn TNone, fence::FenceMemBuilder, fence::FenceMemBuilderK::<1>, E0a1d, false, 0, "fence", resizable);
 config!(CStack24x3, "stack24x3", dyn TNone, Stack<72>, Stack::<72>, E24a8d, true, 3, "stack");
 config!(CStack8x3m, "stack8x3m", dyn TNone, Stack<31>, Stack::<31>, E8a8d, true, 3, "stack");
@@ -128,7 +132,7 @@ fn cfg_json<C: Config>(profile: &str) -> Value {
         "name": C::NAME, "fixed": fixed, "fcap": fcap, "backend": backend,
         "esz": C::E::SZ, "ealign": C::E::AL, "drop": C::E::DROP, "ids": C::E::SZ != 0,
         "cloneable": C::CLONEABLE, "resizable": C::RESIZABLE, "trackcap": false, "maxu": MAXU, "profile": profile,
-        "alloc": cfg!(feature = "alloc"), "elem": C::E::NAME
+        "alloc": cfg!(feature = "alloc"), "elem": C::E::NAME, "bld": C::BUILDER_TRACKED
     })
 }
 
@@ -201,7 +205,19 @@ fn replay<C: Config>(cases: &str, out: &str, shard: (usize, usize), nvecs: usize
     let mut marks = BufWriter::new(marks);
     reg::reset();
     reg::clear_cbs();
-    let mut w0: World<C> = World::new(nvecs);
+    // constructing the empty vectors is already code under test: a panic here is data, not a tool failure
+    let mut w0: World<C> = match std::panic::catch_unwind(|| World::<C>::new(nvecs)) {
+        Ok(w) => w,
+        Err(_) => {
+            let f = std::fs::File::create(out).expect("out file");
+            let mut w = BufWriter::new(f);
+            writeln!(w, "{}", json!({"id": 0, "cfg": cfg_json::<C>(profile), "init": {}, "kids": [], "nvecs": nvecs})).unwrap();
+            w.flush().unwrap();
+            writeln!(marks, "INIT").unwrap();
+            marks.flush().unwrap();
+            std::process::exit(4);
+        }
+    };
     let (icbs, _) = reg::take_cbs();
     let (_, _, _, _, init_mem) = cbs_json(&icbs);
     let mut init = w0.observe();
@@ -329,15 +345,24 @@ fn random_run<C: Config>(out: &str, seed: u64, steps: usize, maxlen: usize, nvec
     for _ in 0..8 { rng.next(); }
     reg::reset();
     reg::clear_cbs();
-    let mut world: World<C> = World::new(nvecs);
-    let (icbs, _) = reg::take_cbs();
-    let (_, _, _, _, init_mem) = cbs_json(&icbs);
-    let mut init = world.observe();
-    init["mem"] = json!(init_mem);
     let f = std::fs::File::create(out).expect("out file");
     let mut w = BufWriter::new(f);
     let marks = std::fs::File::create(format!("{}.run", out)).expect("marker file");
     let mut marks = BufWriter::new(marks);
+    let mut world: World<C> = match std::panic::catch_unwind(|| World::<C>::new(nvecs)) {
+        Ok(w) => w,
+        Err(_) => {
+            writeln!(w, "{}", json!({"id": 0, "cfg": cfg_json::<C>(profile), "init": {}, "kids": [], "nvecs": nvecs, "seed": seed})).unwrap();
+            w.flush().unwrap();
+            writeln!(marks, "INIT").unwrap();
+            marks.flush().unwrap();
+            std::process::exit(4);
+        }
+    };
+    let (icbs, _) = reg::take_cbs();
+    let (_, _, _, _, init_mem) = cbs_json(&icbs);
+    let mut init = world.observe();
+    init["mem"] = json!(init_mem);
     writeln!(w, "{}", json!({"id": 0, "cfg": cfg_json::<C>(profile), "init": init, "kids": [2], "nvecs": nvecs, "seed": seed})).unwrap();
     let (fixed, fcap, _) = C::backend();
     let names = &VNAMES[..nvecs];
@@ -505,8 +530,31 @@ fn finish_td<C: Config>(ev: &mut Value, world: &mut World<C>, skip: bool) {
     }
 }
 
+/// C11: capacity formula of Stack<SIZE> and the build rule of StackN<N, SIZE> on a grid around multiples of the element size
+fn buildgrid() {
+    use std::panic::{catch_unwind, AssertUnwindSafe};
+    macro_rules! stack { ($e:ty, $($size:expr),*) => { $( {
+        let r = catch_unwind(AssertUnwindSafe(|| { let v: any_vec::AnyVec<dyn TNone, Stack<$size>> = any_vec::AnyVec::new::<$e>(); v.capacity() }));
+        println!("{}", json!({"kind": "stack", "size": $size, "n": 0, "esz": <$e as Elem>::SZ, "res": if r.is_ok() { "ok" } else { "panic" },
+                              "cap": r.map(|c| if c as u128 > 1_000_000_000 { 1_000_000_000i64 } else { c as i64 }).unwrap_or(-1)}));
+    } )* } }
+    macro_rules! stackn { ($e:ty, $(($n:expr, $size:expr)),*) => { $( {
+        let r = catch_unwind(AssertUnwindSafe(|| { let v: any_vec::AnyVec<dyn TNone, StackN<$n, $size>> = any_vec::AnyVec::new::<$e>(); v.capacity() }));
+        println!("{}", json!({"kind": "stackn", "size": $size, "n": $n, "esz": <$e as Elem>::SZ, "res": if r.is_ok() { "ok" } else { "panic" },
+                              "cap": r.map(|c| c as i64).unwrap_or(-1)}));
+    } )* } }
+    stack!(E8a8d, 0, 7, 8, 9, 15, 16, 17, 23, 24, 25);
+    stack!(E3a1n, 0, 2, 3, 4, 5, 6, 7, 8, 9, 10);
+    stack!(E24a8d, 23, 24, 25, 47, 48, 49, 71, 72, 73);
+    stack!(E0a1d, 0, 1, 4);
+    stackn!(E8a8d, (0, 0), (1, 7), (1, 8), (1, 9), (2, 15), (2, 16), (2, 17), (3, 23), (3, 24), (3, 25));
+    stackn!(E3a1n, (1, 2), (1, 3), (1, 4), (2, 5), (2, 6), (2, 7), (3, 8), (3, 9), (3, 10));
+    stackn!(E0a1d, (0, 0), (3, 0), (5, 1));
+}
+
 fn main() {
     std::panic::set_hook(Box::new(|_| {}));
+    if std::env::args().nth(1).as_deref() == Some("buildgrid") { buildgrid(); return; }
     let args: Vec<String> = std::env::args().collect();
     let mut cfg = String::new();
     let mut cases = String::new();
@@ -546,7 +594,7 @@ fn main() {
         };
     }
     #[cfg(feature = "alloc")]
-    dispatch!(CEmpty8d, CEmpty0c, CHeap8s, CHeap8y, CHeap8sy, CHeap8cs, CHeap8cy, CStack8sy, CHeap8n, CHeap8d, CHeap8c, CHeap3c, CHeap0c, CHeap8css, CStack8c, CHeap3n, CHeap160, CHeap0d, CHeap1n, CHeap2d, CHeap12d, CHeap16d, CHeap24d, CHeap32d, CHeap64n, CHeap160a32, CHeap0n, CFence8d, CFence3n, CFence24d, CFence160, CFence0d, CFenceOver8d, CFenceOver3c, CStack24x3, CStackN3, CStack8x3m, CStack8x3p, CStack8x2p, CStackN2, CStack16x4, CStack32x4, CStack64x2, CStack0d);
+    dispatch!(CEmpty8d, CEmpty0c, CHeap8s, CHeap8y, CHeap8sy, CHeap8cs, CHeap8cy, CStack8sy, CHeap8n, CHeap8d, CHeap8c, CHeap3c, CHeap0c, CHeap8css, CStack8c, CHeap3n, CHeap160, CHeap0d, CHeap1n, CHeap2d, CHeap12d, CHeap16d, CHeap24d, CHeap32d, CHeap64n, CHeap160a32, CHeap0n, CFence8d, CFence3n, CFence24d, CFence160, CFence0d, CFenceRaw8c, CFenceOver8d, CFenceOver3c, CStack24x3, CStackN3, CStack8x3m, CStack8x3p, CStack8x2p, CStackN2, CStack16x4, CStack32x4, CStack64x2, CStack0d);
     #[cfg(not(feature = "alloc"))]
-    dispatch!(CStack8sy, CEmpty8d, CEmpty0c, CStack8c, CFence8d, CFence3n, CFence24d, CFence160, CFence0d, CFenceOver8d, CFenceOver3c, CStack24x3, CStackN3, CStack8x3m, CStack8x3p, CStack8x2p, CStackN2, CStack16x4, CStack32x4, CStack64x2, CStack0d);
+    dispatch!(CStack8sy, CEmpty8d, CEmpty0c, CStack8c, CFence8d, CFence3n, CFence24d, CFence160, CFence0d, CFenceRaw8c, CFenceOver8d, CFenceOver3c, CStack24x3, CStackN3, CStack8x3m, CStack8x3p, CStack8x2p, CStackN2, CStack16x4, CStack32x4, CStack64x2, CStack0d);
 }
